@@ -94,6 +94,14 @@ class Unpack:
         g, _ = success_edges(fn, node)
         return g
 
+    def lookup_failure(self, fn, node):
+        """the edges on which the lookup is known to have found nothing (infeasible once a found edge was taken, and the other way round:
+        `if v.is_none() { log } .. match v { Some(..) => .., None => .. }` tests the same value twice)"""
+        if node.d["term"].get("name") == "index":
+            return []
+        _, b = success_edges(fn, node)
+        return b
+
 
 def disclosure_array_of(v):
     """if v is `x[i]` / `x.get(i)` / a constant-index projection of a decoded disclosure array D, return (D_peeled, i)"""
